@@ -239,10 +239,22 @@ Definition option_contract (act : oaction) (sel : oselector) (before after : lis
           | AArrayToAppend =>
               forallb (fun o' => same_target selected o' &&
                                  match op_assignments o' with a :: _ => seqb (as_method a) "append" | [] => false end &&
-                                 existsb (fun o => seqb (op_name o) (op_name o') && opt_eqb path_eqb (first_path o) (first_path o')) selected) fresh
+                                 existsb (fun o => seqb (op_name o) (op_name o') && opt_eqb path_eqb (first_path o) (first_path o') &&
+                                                   match op_args o, op_args o' with
+                                                   | [a], [a'] => match a_type a with TArray _ v => ty_eqb v (a_type a') | _ => false end
+                                                   | _, _ => false
+                                                   end) selected) fresh
           | AMapToIndex =>
               forallb (fun o' => same_target selected o' &&
-                                 match op_assignments o' with a :: _ => seqb (as_method a) "index" | [] => false end) fresh
+                                 match op_assignments o' with a :: _ => seqb (as_method a) "index" | [] => false end &&
+                                 existsb (fun o => seqb (op_name o) (op_name o') &&
+                                                   match op_args o, op_args o' with
+                                                   | [a], [k; x] => match a_type a with
+                                                                    | TMap _ it vt => ty_eqb it (a_type k) && ty_eqb vt (a_type x)
+                                                                    | _ => false
+                                                                    end
+                                                   | _, _ => false
+                                                   end) selected) fresh
           | AUnfoldBoolean tn fn =>
               forallb (fun o' => same_target selected o' && (seqb (op_name o') tn || seqb (op_name o') fn) &&
                                  match op_args o', op_assignments o' with
@@ -310,7 +322,11 @@ Definition last_compose_ok (ss : schemas) (lrs : list language_rules) (lang : st
       match cut_dot (yc_source c) with
       | Some (spkg, sname) =>
           forallb (fun b' =>
-            if seqb (o_selfpkg (b_for b')) spkg && seqb (o_selfname (b_for b')) sname then
+            if seqb (o_selfpkg (b_for b')) spkg && seqb (o_selfname (b_for b')) sname &&
+               negb (match field_by_name (struct_fields (o_type (b_for b'))) (yc_disc_field c) with
+                     | Some f => is_concrete_scalar (f_type f)     (* the source already fixes the field: nothing to tell apart *)
+                     | None => true
+                     end) then
               let consts := filter (fun a => match as_path a, as_value a with
                                              | [it], AValue None v None => seqb (pi_id it) (yc_disc_field c) && negb (dyn_is_nil v)
                                              | _, _ => false
@@ -440,10 +456,10 @@ Definition builders_reason (ss : schemas) (bs : list builder) : nat :=
 
 Definition first_step {A} (bad : A -> bool) (l : list A) : option A := find bad l.
 
-(* code = 100 * reason + (1 if a write reached a sharer in that step) ; plus the rule kind *)
+(* code = 2 * reason + (1 if a write reached a sharer in that step) ; plus the rule kind *)
 Definition wt_culprit (c : vcase) : option (string * nat) :=
   match first_step (fun s : tstep => negb (WTs (c_ss c) (erase_builders (snd (fst s))))) (trace (c_ss c) (c_files c) (c_lang c) (c_before c)) with
-  | Some (k, bs, fl) => Some (k, 100 * builders_reason (c_ss c) (erase_builders bs) + (if fl then 1 else 0))
+  | Some (k, bs, fl) => Some (k, 2 * builders_reason (c_ss c) (erase_builders bs) + (if fl then 1 else 0))
   | None => None
   end.
 Definition frame_culprit (c : vcase) : option (string * nat) :=
@@ -457,7 +473,7 @@ Definition frame_culprit (c : vcase) : option (string * nat) :=
   | _ => None
   end.
 
-(* culprits as numbers (the case evaluator only transports lists of nat): 1000 * kind + code *)
+(* culprits as small numbers (the case evaluator only transports lists of nat): 10 * kind + code *)
 Definition all_kinds : list string :=
   ["builder:omit"; "builder:rename"; "builder:merge_into"; "builder:compose"; "builder:properties"; "builder:duplicate";
    "builder:initialize"; "builder:promote_options_to_constructor"; "builder:add_option"; "builder:add_factory";
@@ -467,7 +483,7 @@ Definition all_kinds : list string :=
 Fixpoint index_of (s : string) (l : list string) (i : nat) : nat :=
   match l with [] => i | x :: r => if seqb x s then i else index_of s r (S i) end.
 Definition culprit_code (x : option (string * nat)) : nat :=
-  match x with Some (k, n) => 1000 * index_of k all_kinds 0 + n | None => 1000 * 99 end.
+  match x with Some (k, n) => 10 * index_of k all_kinds 0 + n | None => 990 end.
 Definition codes (f : vcase -> bool) (g : vcase -> option (string * nat)) (cs : list vcase) : list nat :=
   map (fun c => culprit_code (g c)) (filter f cs).
 
